@@ -341,7 +341,7 @@ theorem InvC_commit2 (c : MvccCfg) (hd : c.DetectGood) (hz : c.wmTracksZero = tr
     (hnb : ∀ id upd, op ≠ .begin id upd)
     (x1 : X.rm = (doneReadS c s t0).rm) (x2 : X.nextTs = s.nextTs + 1) (x3 : X.nextTag = s.nextTag)
     (x4 : X.lastCleanup = (newCommitTs c s t0).lastCleanup) (x5 : X.committed = (newCommitTs c s t0).committed)
-    (x6 : X.log = s.log ∨ X.log = { ts := s.nextTs, readTs := t0.readTs, writes := t0.writes, rlog := t0.rlog } :: s.log) :
+    (x6 : X.log = s.log ∨ X.log = commitOf t0 s.nextTs :: s.log) :
     InvC fp (discardTxn c X id0 { t0 with doneRead := true }) := by
   obtain ⟨_, hg, _, _, hrec, hpr, _, _⟩ := hd
   have hdr : (doneReadS c s t0).rm = s.rm.done c t0.readTs t0.tag :=
